@@ -165,6 +165,14 @@ CHECKS = {
         "sequences of calls on different branches: length, frame, parents, group membership, tables and solver index structures equal "
         "to the directly built module, simulations equal on all three backends, SWC radii equal to read_swc(ncomp=n), guards refuse.",
    note=TRUST + "The pandas row surgery is hand-modelled (tied by the table comparison with direct construction). Fixed: F9 (groups), N14 (guards)."),
+ "C18": dict(cat="other", ref="DESIGN.md §4 C18",
+   technique="correspondence against the value-semantics Lean state machine (alpha equality, independence under further histories) + simulation/gradient equality; no theorem about pickle",
+   text="Pickle and deepcopy are runtime facilities; no theorem speaks about them. The technique contributes the abstract state and the "
+        "pure state machine (C19): in the model a copy is the value. For random editing histories h: alpha(pickle copy) = alpha(deepcopy) "
+        "= alpha(original) = model(h); integrate outputs and jax.grad agree; a second history applied to the copy only leaves "
+        "alpha(original) = model(h) and gives alpha(copy) = model(h ++ h2); SWC cells keep xyzr and their radius functions (set_ncomp after "
+        "the round trip gives the same radii) and remain independent.",
+   note="Everything about pickle/deepcopy is measured, not proved. " + TRUST),
 }
 
 def main():
